@@ -636,7 +636,182 @@ def gen_fltm(r, n, tier):
         yield f"fltm {f} {peer}"
 
 
+class LifeSim:
+    """coarse mirror of the lifecycle model, used ONLY to keep generated scripts away from
+    schedules the harness cannot force deterministically (never used for verdicts)"""
+
+    def __init__(self, behaviours, maxto):
+        self.enabled = False
+        self.queue = []
+        self.handles = True
+        self.behaviours = list(behaviours)
+        self.maxto = maxto
+        self.tcount = 0
+        self.pos = ("gate", "Disabled", "waitEnabled", None)
+
+    def next_behaviour(self):
+        if len(self.behaviours) > 1:
+            return self.behaviours.pop(0)
+        return self.behaviours[0]
+
+    def advance(self, phase, b=None):
+        for _ in range(200):
+            if phase == "finished":
+                return ("done",)
+            if phase == "afterDisable":
+                return ("gate", "Disabled", "waitEnabled", None)
+            if phase == "waitEnabled":
+                if self.enabled:
+                    self.cur = self.next_behaviour()
+                    return ("gate", "Connecting", "connect", None)
+                if not self.queue:
+                    return ("idle", "waitEnabled", None) if self.handles else ("gate", "Shutdown", "finished", None)
+                c = self.queue.pop(0)
+                if c == "E":
+                    self.enabled = True
+                elif c == "S":
+                    return ("gate", "Shutdown", "finished", None)
+                continue
+            if phase in ("connect", "failFor"):
+                if self.queue:
+                    c = self.queue.pop(0)
+                    if c == "D":
+                        self.enabled = False
+                        phase = "afterDisable"
+                    elif c == "S":
+                        return ("gate", "Shutdown", "finished", None)
+                    continue
+                if not self.handles:
+                    return ("gate", "Shutdown", "finished", None)
+                if phase == "failFor":
+                    phase = "waitEnabled"
+                    continue
+                b = self.cur
+                if b == "refuse":
+                    return ("gate", "WaitFail", "failFor", None)
+                return ("gate", "Connected", "sessionStart", b)
+            if phase == "sessionStart":
+                self.tcount = 0
+                phase = "session"
+                continue
+            if phase == "session":
+                if b in ("close", "garbage"):
+                    return ("gate", "WaitDisc", "failFor", None)
+                if not self.queue:
+                    return ("idle", "session", b) if self.handles else ("gate", "Shutdown", "finished", None)
+                c = self.queue.pop(0)
+                if c == "D":
+                    self.enabled = False
+                    phase = "afterDisable"
+                elif c == "S":
+                    return ("gate", "Shutdown", "finished", None)
+                elif c == "R":
+                    if b == "serve":
+                        self.tcount = 0
+                    else:
+                        self.tcount += 1
+                        if self.maxto and self.tcount >= self.maxto:
+                            return ("gate", "WaitDisc", "failFor", None)
+                continue
+        return ("done",)
+
+    def stop(self, acts):
+        if self.pos[0] == "done":
+            return
+        for a in acts:
+            if not self.handles:
+                break
+            if a == "X":
+                self.handles = False
+            else:
+                self.queue.append(a)
+        if self.pos[0] == "gate":
+            self.pos = self.advance(self.pos[2], self.pos[3])
+        else:
+            self.pos = self.advance(self.pos[1], self.pos[2])
+
+
+def life_allowed(sim):
+    """(max number of actions, allowed alphabet) at the current stop"""
+    if sim.pos[0] == "done":
+        return 0, []
+    if sim.pos[0] == "idle":
+        return 1, ["E", "D", "S", "X", "R"]
+    if sim.pos[1] == "Connected" and sim.pos[3] in ("close", "garbage"):
+        return 0, []        # EOF/garbage and a queued command would race in select!
+    if sim.pos[1] == "Shutdown":
+        return 0, []
+    return 3, ["E", "D", "S", "X", "R", "R"]
+
+
+def life_case(r, behaviours, maxto, nstops, rmin=30, rmax=120, choose=None):
+    sim = LifeSim(behaviours, maxto)
+    stops = []
+    for k in range(nstops):
+        if sim.pos[0] == "done":
+            break
+        mx, alpha = life_allowed(sim)
+        if choose is not None:
+            acts = choose(k, mx, alpha)
+        else:
+            n = 0
+            if mx:
+                # enable early so that most scripts get past the disabled state
+                if k == 0 and r.chance(5, 6):
+                    acts = ["E"]
+                    n = -1
+                else:
+                    n = r.pick([0, 0, 1, 1, 1, 2, 3])
+            if n >= 0:
+                n = min(n, mx)
+                weights = [a for a in alpha for _ in range({"E": 3, "D": 2, "S": 1, "X": 1, "R": 5}[a])]
+                acts = [r.pick(weights) for _ in range(n)]
+        if acts is None:
+            return None
+        stops.append("+".join(acts) if acts else "-")
+        sim.stop(acts)
+    return f"life r{rmin}.{rmax} m{maxto} t100 {'/'.join(behaviours)} {','.join(stops) if stops else '-'}"
+
+
+def gen_life(r, n, tier):
+    beh = ["refuse", "close", "garbage", "silent", "serve"]
+    # fixed scenarios: every environment fault, then recovery
+    for b in beh:
+        yield life_case(r, [b, "serve"], 2, 5, choose=lambda k, mx, al: ["E"] if k == 0 else (["R"] if mx and k in (2, 3, 4) else []))
+    yield "life r30.120 m0 t100 refuse/refuse/refuse/refuse/serve E,-,-,-,-,-,-,-,-,R"
+    yield "life r20.20 m0 t100 refuse/refuse/serve E,-,-,-,-,-,R"
+    yield "life r50.40 m0 t100 refuse/refuse/serve E,-,-,-,-,-,R"
+    yield "life r30.120 m1 t100 silent/serve E,-,-,R,-,-,-,R"
+    yield "life r30.120 m0 t100 serve -,S"
+    yield "life r30.120 m0 t100 serve X"
+    yield "life r30.120 m0 t100 serve E+D+E+D"
+    if tier == "thorough":
+        # exhaustive: every action sequence of length <= 4 (one action per stop) for each single fault
+        alphabet = [[], ["E"], ["D"], ["S"], ["X"], ["R"]]
+        for b in beh:
+            for seq in itertools.product(alphabet, repeat=4):
+                ok = [True]
+
+                def choose(k, mx, al, seq=seq, ok=ok):
+                    a = seq[k] if k < len(seq) else []
+                    if a and (mx == 0 or a[0] not in al):
+                        ok[0] = False
+                        return []
+                    return a
+                c = life_case(r, [b, "serve"], 2, 4, choose=choose)
+                if ok[0] and c:
+                    yield c
+    for _ in range(n):
+        nb = r.rng(1, 4)
+        bs = [r.pick(beh) for _ in range(nb)]
+        c = life_case(r, bs, r.pick([0, 0, 1, 2, 3]), r.rng(2, 10),
+                      rmin=r.pick([10, 30, 50]), rmax=r.pick([10, 60, 120, 200]))
+        if c:
+            yield c
+
+
 SUITES = {
+    "life": gen_life,
     "retry": gen_retry,
     "trk": gen_trk,
     "flt": gen_flt,
